@@ -10,6 +10,10 @@ Rank4 == << <<1, 2, 3, 4>>, <<4, 2, 1, 3>>, <<5, 1>>, <<2, 3, 4, 5, 1>> >>
 C3  == {3}
 C23 == {2, 3}
 C234 == {2, 3, 4}
+Every == AllContents
+\* two contents: the genesis content and one that changes ranking and BPCOUNT at once; three: ranking and BPCOUNT change separately
+TwoContents == {[rank |-> 1, count |-> 3], [rank |-> 2, count |-> 2]}
+ThreeContents == {[rank |-> 1, count |-> 3], [rank |-> 2, count |-> 3], [rank |-> 1, count |-> 2]}
 
 AllActs   == {"Connect", "Rollback", "FailedBlock", "Restart", "AdvanceLib"}
 NoLibActs == {"Connect", "Rollback", "FailedBlock", "Restart"}
